@@ -23,7 +23,8 @@ CONSTANTS
   Binders, MaxBinds,
   Faults,        \* subset of {"cutsrc","endsrc","cutsink"}
   AdvMsgs, MaxAdv, \* adversary: messages that may be injected towards "A", and how many
-  MaxHandles     \* state constraint: handles per endpoint
+  MaxHandles,    \* state constraint: handles per endpoint
+  MaxCtr         \* state constraint: connect attempts + binds + datagrams in one behaviour
 
 VARIABLE st
 
@@ -102,8 +103,8 @@ AFault(e) ==
      \/ "cutsink" \in Faults /\ st' \in CutSink(st, e)
 
 AAdv ==
-  /\ MaxAdv > 0 /\ st.ctr < 1000 + MaxAdv
-  /\ \E m \in AdvMsgs : st' \in {[t EXCEPT !.ctr = IF @ < 1000 THEN 1001 ELSE @ + 1] : t \in Inject(st, "A", m)}
+  /\ st.advn < MaxAdv
+  /\ \E m \in AdvMsgs : st' \in Inject(st, "A", m)
 
 Next ==
   \/ \E e \in E :
@@ -119,7 +120,7 @@ Spec == Init /\ [][Next]_vars
 
 View == [st EXCEPT !.obs = NoObs]
 
-Bound == \A e \in E : Len(st.hnd[e]) <= MaxHandles
+Bound == (\A e \in E : Len(st.hnd[e]) <= MaxHandles) /\ st.ctr <= MaxCtr + 1
 
 (* ------------------------------------------------------------------ *)
 (* Invariants                                                          *)
@@ -181,5 +182,20 @@ DoneResolved ==
 MkCfg(rwnd, thr, ac, dg, bc, rt) ==
   [rwnd |-> rwnd, thr |-> thr, acceptCap |-> ac, dgCap |-> dg, bindCap |-> bc, retries |-> rt]
 CoreCfgs  == {MkCfg(r, t, 1, 1, 0, 1) : r \in 1..2, t \in 1..3}
+CoreCfgsQ == {MkCfg(r, t, 1, 1, 0, 1) : r \in 1..2, t \in 1..2}
 OneCfg    == {MkCfg(2, 2, 1, 1, 0, 2)}
+(* adversary alphabet: every opcode on the reserved id 0 and on an id A does not know (2).  The live
+   flow (1) is never addressed, so the bystander monitors stay meaningful; a Connect colliding with
+   the live flow is left to MC_Open and to the one-real-endpoint simulator, because here A's Reset
+   reply would reach the conforming endpoint B instead of the adversary.                        *)
+AdvSet ==
+  UNION {{MConnect(i, 1, "hx", 1, 0), MAck(i, 1, 0), MReset(i, 0), MFinish(i, 0), MPush(i, 0, 0, 1, 0),
+          MBind(i, 1, "hx", 1, 0), MDgram(i, "hx", 1, "d", 0)} : i \in {0, 2}}
+  \cup {MkMsg("junk"), MkMsg("ping")}
+TinyCfg   == {MkCfg(1, 1, 1, 1, 0, 1)}
+OpenCfgs  == {MkCfg(1, 1, ac, 1, 0, rt) : ac \in 1..1, rt \in 1..2}
+CloseCfgs == {MkCfg(r, 1, 1, 1, 0, 1) : r \in 1..2}
+DgCfgs    == {MkCfg(1, 1, 1, dg, 0, 1) : dg \in 1..2}
+BindCfgs  == {MkCfg(1, 1, 1, 1, bc, 1) : bc \in 0..2}
+LiveCfgs  == {MkCfg(r, t, 1, 1, 0, 1) : r \in 1..3, t \in 1..4}
 =============================================================================
